@@ -445,6 +445,47 @@ def run_peer_refusal_after_unread_ack(ck, w, seed):
                      {'missing_in_the_responders_kernel': missing, 'refused_newsa': k, 'delsa_whose_answer_was_not_read': dk if dk < 2 else None}, sim.case)
 
 
+OVERTAKEN = [(ka, kb) for ka in ('expire_soft', 'acquire', 'expire_hard') for kb in ('expire_hard', 'expire_soft', 'acquire', 'dpd', 'rekey_ike')]
+
+
+def run_answer_overtaken(ck, w, seed):
+    """The answer to one end's CREATE_CHILD_SA / INFORMATIONAL request is OVERTAKEN by a request the peer starts right after answering (its hard lifetime fires, it
+    rekeys or creates a CHILD_SA itself, probes, rekeys the IKE_SA): reordering, or the answer was lost and only comes back on the retransmission. Whatever the two
+    ends make of it, once everything has been delivered their SADs mirror each other: no pair that only one end holds."""
+    ka, kb = OVERTAKEN[w % len(OVERTAKEN)]
+    x, y = 'AB' if (w // len(OVERTAKEN)) % 2 == 0 else 'BA'
+    late = (w // (2 * len(OVERTAKEN))) % 2          # 0: reordered within the same instant; 1: the answer is lost, the retransmission brings its stored copy back
+    kw = dict(dpd=600, lifetime=3600, ipsec_proto='ah' if w % 7 == 6 else 'esp', child_a={'encr': ['aes256'], 'integ': ['sha256'], 'dh': ['19'] if w % 3 == 0 else []})
+    kw['child_b'] = kw['child_a']
+    sc = walk.Scenario(seed + w, [], kw, n_children=2)
+    sim = sc.sim
+    if not sc.ok:
+        return
+    sim.case.update({'family': 'answer-overtaken-by-a-request-of-the-peer', 'first': (x, ka), 'then': (y, kb), 'answer_lost_and_retransmitted': bool(late)})
+    sc.trigger(x, ka)
+    if not sim.net:
+        return
+    sc.deliver(0)                                   # the peer executes the request ...
+    held = [d for d in sim.net if d.dst == str(sc.ep(x).addrs[0])]
+    if not held:
+        ck.count('overtaken.no_answer')
+        return
+    for d in held:
+        sim.net.remove(d)                           # ... its answer is on its way (or lost)
+    sc.trigger(y, kb)                               # and it starts an exchange of its own
+    sim.drain()
+    if not late:
+        sim.net.extend(held)
+    sim.drain()
+    sc.settle()
+    ck.count('overtaken.runs')
+    ck.seen('overtaken.kinds', (ka, kb, x, late))
+    ck.nontrivial(('overtaken', ka, kb, x, late, w % 3 == 0))
+    if sc.a.kernel.sad and sc.b.kernel.sad:
+        ck.count('overtaken.runs_ending_with_sas_at_both_ends')
+    shadow.mirror_check(ck, sim, sc.a, sc.b, prefix=f'overtaken:{ka}-then-{kb}:', require_equal_sets=True)
+
+
 def run(ck):
     for w in range(72 if not ck.thorough() else 1440):
         if ck.mine(w):
@@ -452,6 +493,9 @@ def run(ck):
     for w in range(48 if not ck.thorough() else 960):
         if ck.mine(w):
             run_refusal(ck, w, ck.seed * 1000003 + 8807)
+    for w in range(4 * len(OVERTAKEN) if not ck.thorough() else 80 * len(OVERTAKEN)):
+        if ck.mine(w + 5):
+            run_answer_overtaken(ck, w, ck.seed * 1000003 + 8861)
     for w in range(60 if not ck.thorough() else 1200):
         if ck.mine(w + 4):
             run_peer_refusal_after_unread_ack(ck, w, ck.seed * 1000003 + 8831)
@@ -506,6 +550,8 @@ def verdict(ck):
     ck.floor('NEWSA requests checked after answers with the transforms in another order', c['unusual_peer.newsa_checked'], 100)
     ck.floor('runs in which the answer to a DELSA could not be read and a later NEWSA was refused, SADs compared afterwards', c['refusal_after_unread_ack.runs_with_both_events'], 30)
     ck.floor('CHILD_SA requests of an independent peer during which a NEWSA was refused after the answer to a DELSA could not be read', c['peer_refusal.runs_with_a_refused_newsa_after_an_unread_ack'], 30)
+    ck.floor('answers overtaken by a request the peer started right after answering (kinds x role x reordered / retransmitted)', len(ck.sets['overtaken.kinds']), 50)
+    ck.floor('... ending with SAs at both ends, SADs compared', c['overtaken.runs_ending_with_sas_at_both_ends'], 30)
     ck.floor('runs in which the kernel of one side refused a NEWSA, SADs compared afterwards', c['refusal.runs_with_a_refused_newsa'], 30)
     ck.floor('crossing-exchange walks', c['crossing.walks'], 100)
     ck.floor('lossy walks', c['lossy.walks'], 40)
